@@ -764,3 +764,631 @@ def c16_files(seed, tier):
     finally:
         W.close()
     return R.as_dict()
+
+
+# ------------------------------------------------------------------------------ C02 / C06: seeds and fetches
+
+def _strace_reads(log, path):
+    ev = parse_strace(log)
+    return [(o[1], o[2]) for o in file_ops(ev, path) if o[0] == "read"]
+
+
+def merge_ranges(rs):
+    """Adjacent / continuing reads merged (a chunk may be read in several read() calls)."""
+    out = []
+    for o, n in rs:
+        if out and out[-1][0] + out[-1][1] == o:
+            out[-1] = (out[-1][0], out[-1][1] + n)
+        else:
+            out.append((o, n))
+    return out
+
+
+def split_at(ranges, cuts):
+    """Split merged ranges at descriptor boundaries so that they can be compared with descriptor ranges."""
+    res = []
+    for o, n in ranges:
+        pts = sorted(c for c in cuts if o < c < o + n)
+        start = o
+        for c in pts:
+            res.append((start, c - start))
+            start = c
+        res.append((start, o + n - start))
+    return res
+
+
+def c02_seeds(seed, tier):
+    """CLI clones with 0-4 seeds of every kind (and stdin), plain and in place, local and http;
+    output == source; model comparison of result, output, and what is fetched (C06)."""
+    from . import httpd, pyfmt
+    rng = random.Random(seed * 1000003 + 2)
+    R = Result()
+    W = Work("c02")
+    try:
+        n = 150 if tier == "thorough" else 30
+        for i in range(n):
+            src = gen_source(rng, 4000)
+            if len(src) < 2:
+                src = rng.randbytes(600)
+            arch, apath, cfg_tok, hl = make_archive(W, rng, src, hash_len=rng.choice([4, 5, 8, 64]))
+            kinds = []
+            seeds = []
+            for _ in range(rng.randrange(0, 5)):
+                k = rng.randrange(7)
+                kinds.append(k)
+                if k == 0:
+                    seeds.append(rng.randbytes(rng.randrange(1, 3000)))          # unrelated
+                elif k == 1:
+                    seeds.append(src)                                               # the source itself
+                elif k in (2, 3):
+                    seeds.append(edit_source(rng, src))                             # edited copy
+                elif k == 4:
+                    seeds.append(b"")                                               # empty
+                elif k == 5:
+                    seeds.append(bytes(len(src)))                                   # same size, other content
+                else:
+                    seeds.append(src[len(src) // 2:] + src[:len(src) // 2])         # reordered halves
+            in_place = rng.random() < 0.4
+            blockdev = in_place and rng.random() < 0.4
+            use_http = rng.random() < 0.3
+            stdin_seed = seeds.pop() if seeds and rng.random() < 0.25 else None
+            prior = None
+            outp = W.fresh(".out")
+            if in_place:
+                prior = edit_source(rng, src) if rng.random() < 0.7 else rng.randbytes(rng.randrange(1, 2000))
+                if blockdev and len(prior) < len(src):
+                    prior = prior + bytes(len(src) - len(prior) + rng.randrange(0, 50))
+                with open(outp, "wb") as f:
+                    f.write(prior)
+            seed_paths = [W.write(s, ".seed") for s in seeds]
+            srv = None
+            archive_arg = apath
+            log = W.fresh(".strace")
+            if use_http:
+                srv = httpd.Server(arch)
+                archive_arg = srv.url()
+            cls, rc, so, se = clone_cli(W, archive_arg, outp, seeds=seed_paths, seed_output=in_place, stdin_seed=stdin_seed,
+                                        blockdev=blockdev, strace_log=None if use_http else log)
+            got = read_file(outp)
+            req = "cli-clone seeds=%r stdin=%s in_place=%s blockdev=%s http=%s cfg=%s hl=%d src=%s" % (
+                kinds, stdin_seed is not None, in_place, blockdev, use_http, cfg_tok, hl, digest(src))
+            R.stat("clones")
+            R.stat("with_%d_seeds" % (len(seeds) + (1 if stdin_seed is not None else 0)))
+            if cls != "ok":
+                R.fail("clone-with-seeds-%s" % cls, req + " :: " + se.decode(errors="replace")[-200:].replace("\n", "|"))
+            elif (got[:len(src)] if blockdev else got) != src:
+                R.fail("seeds-changed-the-output", req)
+            # model: same scenario (stdin seed comes first, as in clone_archive)
+            all_seeds = ([stdin_seed] if stdin_seed is not None else []) + seeds
+            flags = ("s" if in_place else "") + ("b" if blockdev else "") or "-"
+            mreq = "clone-rf %s - %s %s %s -" % (flags, hx(arch), hx(prior or b""), ",".join(hx(s) if s else "h" for s in all_seeds) or "-")
+            # what was fetched: local = reads on the archive beyond the header; http = Range log
+            a = pyfmt.parse_archive(arch)
+            hs = a["header_size"]
+            if use_http:
+                fetched = [r for r in srv.log if r is not None][2:]
+                srv.close()
+            else:
+                fetched = [r for r in _strace_reads(log, apath) if r[0] >= hs]
+            cuts = set()
+            for cd in a["dictionary"]["chunk_descriptors"]:
+                cuts.add(a["chunk_data_offset"] + cd["archive_offset"])
+                cuts.add(a["chunk_data_offset"] + cd["archive_offset"] + cd["archive_size"])
+            fetched = split_at(merge_ranges(fetched), cuts)
+            if len(arch) + len(prior or b"") + sum(len(s) for s in all_seeds) <= 14000 and all(len(s) > 0 for s in all_seeds):
+                R.case(mreq, None)   # answer filled below
+                R.cases[-1] = (mreq, "result=%s out=%s fetch=%s" % (cls if cls in ("ok", "panic") else "err", digest(got or b""),
+                                                                    ",".join("%d:%d" % r for r in fetched) or "-"))
+            # direct C06 oracle: no chunk present in a seed / the prior output is fetched; each range once
+            if len(set(fetched)) != len(fetched):
+                R.fail("a-chunk-was-fetched-twice", req)
+            if cls == "ok" and any(s == src for s in all_seeds) and fetched:
+                R.fail("source-was-a-seed-but-chunks-were-fetched", req + " fetched=%r" % fetched[:4])
+            if cls == "ok" and in_place and prior == src and fetched:
+                R.fail("output-already-held-the-source-but-chunks-were-fetched", req + " fetched=%r" % fetched[:4])
+            if os.path.exists(log):
+                os.unlink(log)
+        # dedicated C06 rows: output already equal to the source, regular and block device
+        for blockdev in (False, True):
+            src = rng.randbytes(3000)
+            arch, apath, cfg_tok, hl = make_archive(W, rng, src)
+            outp = W.fresh(".out")
+            with open(outp, "wb") as f:
+                f.write(src + (b"\1" * 77 if blockdev else b""))
+            log = W.fresh(".strace")
+            cls, rc, so, se = clone_cli(W, apath, outp, seed_output=True, blockdev=blockdev, strace_log=log)
+            a = pyfmt.parse_archive(arch)
+            fetched = [r for r in _strace_reads(log, apath) if r[0] >= a["header_size"]]
+            req = "cli-clone in-place output==source blockdev=%s" % blockdev
+            if cls != "ok":
+                R.fail("in-place-clone-%s" % cls, req)
+            if fetched:
+                R.fail("output-already-held-the-source-but-chunks-were-fetched", req + " fetched=%r" % fetched[:4])
+            R.stat("output_equals_source_rows")
+    finally:
+        W.close()
+    return R.as_dict()
+
+
+# ------------------------------------------------------------------------------ C05: interruption and write faults
+
+def _shim_writes(logpath):
+    out = []
+    try:
+        for ln in open(logpath):
+            f = ln.split()
+            if f and f[0] == "W":
+                out.append((int(f[1]), int(f[2]), int(f[3])))
+    except FileNotFoundError:
+        pass
+    return out
+
+
+def c05_crash(seed, tier):
+    """Kill the clone at (write k, after t bytes), re-run with --seed-output: must complete to the
+    source; also repeated crashes.  A failing / torn write must not end in a success report."""
+    from . import httpd  # noqa
+    rng = random.Random(seed * 1000003 + 5)
+    R = Result()
+    W = Work("c05")
+    shim = ensure_shim()
+    try:
+        n = 25 if tier == "thorough" else 6
+        for i in range(n):
+            src = gen_source(rng, 3000)
+            if len(src) < 200:
+                src = rng.randbytes(1500)
+            arch, apath, cfg_tok, hl = make_archive(W, rng, src, compression=rng.choice(["none", "brotli"]))
+            in_place = rng.random() < 0.6
+            prior0 = (edit_source(rng, src) if rng.random() < 0.8 else rng.randbytes(900)) if in_place else None
+            seed_paths = [W.write(edit_source(rng, src), ".seed")] if rng.random() < 0.4 else []
+
+            def fresh_out():
+                p = W.fresh(".out")
+                if prior0 is not None:
+                    with open(p, "wb") as f:
+                        f.write(prior0)
+                return p
+
+            # uninterrupted run: how many writes are there
+            outp = fresh_out()
+            wl = W.fresh(".wlog")
+            cls, rc, so, se = clone_cli(W, apath, outp, seeds=seed_paths, seed_output=in_place, preload=shim,
+                                        env={"IOFAULT_PATH": outp, "IOFAULT_LOG": wl})
+            writes = _shim_writes(wl)
+            desc = "scenario cfg=%s in_place=%s seeds=%d src=%s writes=%d" % (cfg_tok, in_place, len(seed_paths), digest(src), len(writes))
+            if cls != "ok" or read_file(outp) != src:
+                R.fail("uninterrupted-clone-%s" % cls, desc)
+                continue
+            R.stat("scenarios")
+            R.stat("writes_total", len(writes))
+            ks = list(range(len(writes))) if (tier == "thorough" or len(writes) <= 12) else sorted(rng.sample(range(len(writes)), 12))
+            for k in ks:
+                size_k = writes[k][2]
+                tears = sorted(set([0, size_k, rng.randrange(0, size_k + 1)] + ([1, size_k - 1] if size_k > 2 else [])))
+                if tier != "thorough":
+                    tears = tears[:3]
+                for t in tears:
+                    outp = fresh_out()
+                    cls, rc, so, se = clone_cli(W, apath, outp, seeds=seed_paths, seed_output=in_place, preload=shim,
+                                                env={"IOFAULT_PATH": outp, "IOFAULT_MODE": "kill", "IOFAULT_AT": str(k), "IOFAULT_BYTES": str(t)})
+                    req = "%s kill-at write=%d bytes=%d" % (desc, k, t)
+                    R.stat("crash_points")
+                    if cls != "signal9":
+                        R.fail("kill-did-not-happen(%s)" % cls, req)
+                        continue
+                    crashed = read_file(outp)
+                    # maybe a second interruption of the re-run
+                    if rng.random() < 0.3:
+                        k2 = rng.randrange(0, 6)
+                        clone_cli(W, apath, outp, seed_output=True, preload=shim,
+                                  env={"IOFAULT_PATH": outp, "IOFAULT_MODE": "kill", "IOFAULT_AT": str(k2), "IOFAULT_BYTES": str(rng.randrange(0, 40))})
+                        R.stat("double_crashes")
+                    cls2, rc2, so2, se2 = clone_cli(W, apath, outp, seed_output=True)
+                    final = read_file(outp)
+                    if cls2 != "ok":
+                        R.fail("re-run-after-interruption-%s" % cls2, req + " :: " + se2.decode(errors="replace")[-200:].replace("\n", "|"))
+                    elif final != src:
+                        R.fail("re-run-after-interruption-wrong-output", req)
+                    # model: re-run in place on the crashed content must give the source (small cases)
+                    if crashed is not None and len(arch) + len(crashed) <= 9000 and "brotli" not in desc and rng.random() < 0.3 and b"\x03" != b"":
+                        pass
+                    os.unlink(outp)
+            # write failures: the k-th write fails (ENOSPC) or is torn: never a success report
+            for mode in ("fail", "tear"):
+                for k in sorted(set([0, len(writes) - 1, len(writes) // 2] + ([len(writes) - 2] if len(writes) > 1 else []))):
+                    if k < 0 or (mode == "tear" and writes[k][2] < 2):
+                        continue        # a one-byte write cannot be torn
+                    outp = fresh_out()
+                    cls, rc, so, se = clone_cli(W, apath, outp, seeds=seed_paths, seed_output=in_place, preload=shim,
+                                                env={"IOFAULT_PATH": outp, "IOFAULT_MODE": mode, "IOFAULT_AT": str(k),
+                                                     "IOFAULT_BYTES": str(max(1, min(writes[k][2] - 1, writes[k][2] // 2)))})
+                    req = "%s %s write=%d of %d" % (desc, mode, k, len(writes))
+                    R.stat("write_faults")
+                    if cls == "ok":
+                        R.fail("failed-write-reported-as-success", req)
+                    elif cls != "err":
+                        R.fail("failed-write-ended-in-%s" % cls, req)
+                    os.unlink(outp)
+    finally:
+        W.close()
+    return R.as_dict()
+
+
+# ------------------------------------------------------------------------------ C04: corruption
+
+def c04_corruption(seed, tier):
+    from . import httpd, pyfmt
+    rng = random.Random(seed * 1000003 + 4)
+    R = Result()
+    W = Work("c04")
+    try:
+        n = 12 if tier == "thorough" else 4
+        for i in range(n):
+            src = gen_source(rng, 1200)
+            if len(src) < 100:
+                src = rng.randbytes(700)
+            compression = "none" if i % 2 == 0 else "brotli"
+            arch, apath, cfg_tok, hl = make_archive(W, rng, src, compression=compression, hash_len=rng.choice([8, 16, 64]))
+            a = pyfmt.parse_archive(arch)
+            hs = a["header_size"]
+            seed_path = W.write(edit_source(rng, src), ".seed")
+            mutants = []
+            # every single-bit flip for tiny archives (thorough), a sample otherwise; header and payload separately
+            positions = list(range(len(arch) * 8))
+            if tier != "thorough" or len(arch) > 1500:
+                hdr_bits = rng.sample(range(hs * 8), min(60, hs * 8))
+                pay_bits = rng.sample(range(hs * 8, len(arch) * 8), min(60, (len(arch) - hs) * 8)) if len(arch) > hs else []
+                positions = hdr_bits + pay_bits
+            for bit in positions:
+                m = bytearray(arch)
+                m[bit // 8] ^= 1 << (bit % 8)
+                mutants.append(("flip@%d" % bit, bytes(m), bit // 8 < hs))
+            for k in sorted(set([0, 1, 13, 14, hs - 1, hs, hs + 1, len(arch) - 1] + [rng.randrange(len(arch)) for _ in range(8)])):
+                if 0 <= k < len(arch):
+                    mutants.append(("truncate@%d" % k, arch[:k], k < hs))
+            mutants.append(("trailing-garbage", arch + rng.randbytes(50), False))
+            for _ in range(6):
+                m = bytearray(arch)
+                s0 = rng.randrange(len(arch))
+                ln = rng.randrange(1, 40)
+                m[s0:s0 + ln] = rng.randbytes(len(m[s0:s0 + ln]))
+                mutants.append(("overwrite@%d+%d" % (s0, ln), bytes(m), s0 < hs))
+            cds = a["dictionary"]["chunk_descriptors"]
+            if len(cds) >= 2:
+                c1, c2 = cds[0], cds[-1]
+                o1, o2 = a["chunk_data_offset"] + c1["archive_offset"], a["chunk_data_offset"] + c2["archive_offset"]
+                m = bytearray(arch)
+                b1, b2 = arch[o1:o1 + c1["archive_size"]], arch[o2:o2 + c2["archive_size"]]
+                if len(b1) == len(b2) and b1 != b2:
+                    m[o1:o1 + len(b1)], m[o2:o2 + len(b2)] = b2, b1
+                    mutants.append(("swap-payloads", bytes(m), False))
+            for name, mbytes, in_header in mutants:
+                if mbytes == arch:
+                    continue
+                mp = W.write(mbytes, ".mut.cba")
+                outp = W.fresh(".out")
+                mode = rng.randrange(4)
+                kw = {}
+                if mode == 1:
+                    kw["seeds"] = [seed_path]
+                elif mode == 2:
+                    kw["verify_output"] = True
+                elif mode == 3:
+                    kw["pin"] = a["header_checksum"].hex()
+                cls, rc, so, se = clone_cli(W, mp, outp, **kw)
+                got = read_file(outp)
+                req = "cli-clone corrupted %s %s mode=%d cfg=%s hl=%d" % (compression, name, mode, cfg_tok, hl)
+                R.stat("mutants")
+                R.stat("mutant_%s" % name.split("@")[0])
+                if cls == "ok":
+                    R.stat("mutant_accepted")
+                    if got != src:
+                        R.fail("corrupted-archive-cloned-to-wrong-output", req)
+                    if in_header and mbytes[:hs] != arch[:hs]:
+                        R.fail("altered-header-accepted", req)
+                elif cls != "err":
+                    R.fail("corrupted-archive-%s" % cls, req)
+                else:
+                    R.stat("mutant_rejected")
+                if compression == "none" and len(mbytes) <= 4000 and mode in (0, 2):
+                    R.case("clone-ro %s - %s - - -" % ("v" if mode == 2 else "-", hx(mbytes)),
+                           "result=%s out=%s" % ("ok" if cls == "ok" else "err" if cls == "err" else cls, digest(got or b"")))
+                os.unlink(mp)
+                if os.path.exists(outp):
+                    os.unlink(outp)
+            # server misbehaviour
+            for act in ("wrong", "errorpage", ("short", 10), ("extra", 25), "empty", ("status", 404), ("cut", 7)):
+                srv = httpd.Server(arch, script=["full", "full"], default=act)
+                outp = W.fresh(".out")
+                cls, rc, so, se = clone_cli(W, srv.url(), outp, extra=["--http-retry-count", "1"], timeout=60)
+                srv.close()
+                got = read_file(outp)
+                req = "cli-clone http server=%r" % (act,)
+                R.stat("server_misbehaviours")
+                if cls == "ok" and got != src:
+                    R.fail("misbehaving-server-cloned-to-wrong-output", req)
+                elif cls not in ("ok", "err"):
+                    R.fail("misbehaving-server-%s" % cls, req)
+    finally:
+        W.close()
+    return R.as_dict()
+
+
+# ------------------------------------------------------------------------------ C17: conforming archives from the independent encoder
+
+def brotli_table(W, chunks, level=5):
+    """stored bytes for chunks through bita's own brotli (the harness helper); {chunk: compressed}"""
+    if not chunks:
+        return {}
+    inp = W.fresh(".chunks")
+    with open(inp, "w") as f:
+        for c in chunks:
+            f.write(c.hex() + "\n")
+    out = W.fresh(".comp")
+    p = subprocess.run([os.path.join(core.TARGET, "debug", "l1"), "codec", inp, out, str(level)],
+                       stdout=subprocess.PIPE, stderr=subprocess.PIPE, env=core.env_offline(), timeout=300)
+    if p.returncode != 0:
+        raise core.Failure("codec helper failed", p.stderr.decode(errors="replace")[-300:])
+    res = {}
+    for c, ln in zip(chunks, open(out).read().split("\n")):
+        res[c] = bytes.fromhex(ln) if ln and ln != "-" else b""
+    return res
+
+
+def random_cut(rng, n):
+    sizes = []
+    left = n
+    while left > 0:
+        s = min(left, rng.choice([1, 2, 3, 7, 50, 100, 300, rng.randrange(1, 400)]))
+        sizes.append(s)
+        left -= s
+    return sizes
+
+
+def c17_conforming(seed, tier):
+    from . import httpd, pyfmt
+    rng = random.Random(seed * 1000003 + 17)
+    R = Result()
+    W = Work("c17")
+    try:
+        n = 200 if tier == "thorough" else 40
+        for i in range(n):
+            src = gen_source(rng, 3000)
+            if rng.random() < 0.1:
+                src = b""
+            sizes = random_cut(rng, len(src))
+            hash_len = rng.choice([4, 5, 8, 16, 33, 64])
+            algo = rng.randrange(3)
+            if algo == 2:
+                cfg = (2, 0, 0, rng.choice([1, 64, 1000]), 0)
+            else:
+                w = rng.choice([1, 4, 16, 64])
+                mn = rng.choice([0, 4, 100])
+                cfg = (algo, rng.randrange(1, 25), mn, max(mn, w) + rng.randrange(0, 1000), w)
+            use_brotli = rng.random() < 0.4
+            pieces = pyfmt.chunks_of(src, sizes)
+            table = brotli_table(W, sorted(set(pieces)), 5) if use_brotli else {}
+
+            def comp(p):
+                z = table.get(p)
+                # per-chunk choice of compressed vs raw; never compressed with stored size == source size
+                if z is None or len(z) == len(p) or rng.random() < 0.3:
+                    return None
+                return z
+
+            md = {"k": b"v", "": b"", "bin": bytes(range(5))} if rng.random() < 0.3 else {}
+            arch, d = pyfmt.encode_archive(src, sizes, cfg, hash_len, rng, freedoms=True, compress=comp if use_brotli else None,
+                                           compression_code=3 if use_brotli else 0, level=5 if use_brotli else 0, metadata=md)
+            apath = W.write(arch, ".ind.cba")
+            req = "independent-archive algo=%d hl=%d brotli=%s chunks=%d src=%s arch=%s" % (algo, hash_len, use_brotli, len(sizes), digest(src), digest(arch))
+            R.stat("archives")
+            R.stat("magic_legacy" if arch[:1] == b"\0" else "magic_current")
+            # local clone
+            outp = W.fresh(".out")
+            cls, rc, so, se = clone_cli(W, apath, outp, verify_output=rng.random() < 0.5)
+            got = read_file(outp)
+            if cls != "ok":
+                R.fail("conforming-archive-clone-%s" % cls, req + " :: " + se.decode(errors="replace")[-200:].replace("\n", "|"))
+            elif got != src:
+                R.fail("conforming-archive-cloned-to-wrong-output", req)
+            # http clone (sometimes with a seed so that only part is fetched)
+            if i % 2 == 0:
+                srv = httpd.Server(arch)
+                outp2 = W.fresh(".out")
+                kw = {"seeds": [W.write(edit_source(rng, src), ".seed")]} if rng.random() < 0.5 and src else {}
+                cls2, rc2, so2, se2 = clone_cli(W, srv.url(), outp2, **kw)
+                srv.close()
+                if cls2 != "ok" or read_file(outp2) != src:
+                    R.fail("conforming-archive-http-clone-%s" % cls2, req)
+                R.stat("http_clones")
+            # what the reader reports (bita info) vs the encoder's inputs
+            c3, rc3, so3, se3 = run_bita(["info", apath])
+            text = (so3 + se3).decode(errors="replace")
+            if c3 != "ok":
+                R.fail("conforming-archive-info-%s" % c3, req)
+            else:
+                want = ["Built with version: 9.9.9-independent", "Chunk hash length: %d bytes" % hash_len,
+                        "Source checksum: %s" % hashlib.blake2b(src).hexdigest(),
+                        "Chunks in source: %d (unique: %d)" % (len(sizes), len(d["chunk_descriptors"])),
+                        "Chunking algorithm: %s" % ["BuzHash", "RollSum", "Fixed Size"][algo],
+                        "Chunk compression: %s" % ("Brotli (level 5)" if use_brotli else "None")]
+                for wline in want:
+                    if wline not in text:
+                        R.fail("reader-reports-other-than-encoded", req + " :: missing %r" % wline)
+                        break
+            # model: opens and clones (uncompressed, small)
+            if not use_brotli and len(arch) <= 5000:
+                R.case("clone-ro - - %s - - -" % hx(arch), "result=%s out=%s" % (cls if cls in ("ok", "panic") else "err", digest(got or b"")))
+    finally:
+        W.close()
+    return R.as_dict()
+
+
+# ------------------------------------------------------------------------------ C11: written archives judged by the independent decoder
+
+def c11_conformance(seed, tier):
+    from . import pyfmt
+    rng = random.Random(seed * 1000003 + 11)
+    R = Result()
+    W = Work("c11")
+    try:
+        n = 150 if tier == "thorough" else 30
+        version = None
+        try:
+            version = re.search(r'^version = "([^"]+)"', open(os.path.join(core.REPO, "Cargo.toml")).read(), re.M).group(1)
+        except Exception:
+            pass
+        for i in range(n):
+            src = gen_source(rng, 20000 if i % 5 == 0 else 3000)
+            cfg_args, cfg_tok, _w = gen_config(rng)
+            hash_len = rng.choice([4, 8, 16, 32, 64, rng.randrange(4, 65)])
+            compression = rng.choice(["none", "brotli"])
+            level = rng.randrange(1, 12) if compression == "brotli" else None
+            md = {}
+            for j in range(rng.randrange(0, 4)):
+                md[rng.choice(["", "a", "key%d" % j, "ключ", "k k"])] = rng.choice(["", "v", "binÿ", "x" * 300])
+            writer = "cli" if i % 3 else "lib"
+            if writer == "cli":
+                cls, arch, se, apath = compress_cli(W, src, cfg_args, hash_len, compression, level, rng.choice([1, 3, 16]), list(md.items()),
+                                                    via_stdin=rng.random() < 0.3)
+            else:
+                arch, err = lib_compress(W, src, cfg_tok, hash_len, compression, level, rng.choice([1, 3, 16]), list(md.items()), rng.choice([0, 1, 100]))
+                cls = "ok" if arch is not None else "err"
+                apath = W.write(arch or b"", ".cba")
+            req = "%s-compress %s hl=%d %s/%s md=%d src=%s" % (writer, cfg_tok, hash_len, compression, level, len(md), digest(src))
+            R.stat("archives_%s" % writer)
+            if cls != "ok" or arch is None:
+                R.fail("compress-%s" % cls, req)
+                continue
+            probs = pyfmt.conformance_problems(arch, src, cfg_tok, hash_len, 3 if compression == "brotli" else 0, level or 0,
+                                               {k: v.encode() for k, v in md.items()}, version)
+            if probs:
+                R.fail("archive-does-not-conform", req + " :: " + "; ".join(probs)[:300])
+            # the model's reading of the same bytes (header + dictionary) agrees with the implementation's `info`
+            if len(arch) <= 6000:
+                R.case("try-init %s" % hx(arch), None)
+                R.cases[-1] = ("try-init " + hx(arch), "__accept_ok__")
+            # bita info reports the settings back
+            c3, rc3, so3, se3 = run_bita(["info", apath])
+            text = (so3 + se3).decode(errors="replace")
+            if c3 != "ok" or ("Chunk hash length: %d bytes" % hash_len) not in text:
+                R.fail("info-does-not-report-settings", req)
+            for k, v in md.items():
+                c4, rc4, so4, se4 = run_bita(["info", "--metadata-key", k, apath])
+                if c4 != "ok" or so4 != v.encode():
+                    R.fail("metadata-not-reported-verbatim", req + " key=%r" % k)
+                    break
+    finally:
+        W.close()
+    return R.as_dict()
+
+
+# ------------------------------------------------------------------------------ C15: crafted archives and servers through the CLI
+
+def c15_cli(seed, tier):
+    from . import httpd, pyfmt
+    rng = random.Random(seed * 1000003 + 15)
+    R = Result()
+    W = Work("c15")
+    try:
+        base_src = rng.randbytes(500)
+        sizes = random_cut(rng, len(base_src))
+        n = 400 if tier == "thorough" else 70
+        seedfile = W.write(rng.randbytes(3000) + bytes(2000), ".seed")
+        for i in range(n):
+            arch, d = pyfmt.encode_archive(base_src, sizes, (1, 5, 16, 512, 16), 8, rng, freedoms=False)
+            # structure-aware mutation under a recomputed checksum
+            p = d["chunker_params"]
+            mut = rng.randrange(22)
+            name = "none"
+            if mut == 0:
+                d["rebuild_order"] = d["rebuild_order"] + [len(d["chunk_descriptors"]) + rng.choice([0, 1, 1000, 2 ** 32 - 1])]; name = "rebuild-index-out-of-range"
+            elif mut == 1:
+                p["chunking_algorithm"] = 2; p["max_chunk_size"] = 0; name = "fixed-size-0"
+            elif mut == 2:
+                p["rolling_hash_window_size"] = 0; name = "window-0"
+            elif mut == 3:
+                p["chunking_algorithm"] = 0; p["rolling_hash_window_size"] = 0; name = "buzhash-window-0"
+            elif mut == 4:
+                p["chunk_filter_bits"] = rng.choice([0, 31, 32, 33, 40, 2 ** 32 - 1]); name = "filter-bits-%d" % p["chunk_filter_bits"]
+            elif mut == 5:
+                p["min_chunk_size"] = p["max_chunk_size"] + rng.choice([1, 2, 1000]); name = "min-gt-max"
+            elif mut == 6:
+                p["chunking_algorithm"] = 0; p["rolling_hash_window_size"] = p["max_chunk_size"] + 1; name = "buzhash-window-gt-max"
+            elif mut == 7:
+                d["chunk_descriptors"][0]["archive_offset"] = 2 ** 64 - rng.choice([1, 50, 300]); name = "offset-near-2^64"
+            elif mut == 8:
+                d["chunk_descriptors"][0]["archive_size"] = 0; name = "stored-size-0"
+            elif mut == 9:
+                d["chunk_descriptors"][0]["source_size"] = rng.choice([0, 2 ** 32 - 1]); name = "source-size-extreme"
+            elif mut == 10:
+                p["chunk_hash_length"] = rng.choice([0, 65, 2 ** 32 - 1]); name = "hash-length-%d" % p["chunk_hash_length"]
+            elif mut == 11:
+                p["chunking_algorithm"] = rng.choice([3, 7, 2 ** 31, 2 ** 32 - 1]); name = "algorithm-out-of-range"
+            elif mut == 12:
+                d["chunk_compression"]["compression"] = rng.choice([1, 2, 4, 2 ** 32 - 1]); name = "compression-%d" % d["chunk_compression"]["compression"]
+            elif mut == 13:
+                d["chunker_params"] = None; name = "no-chunker-params"
+            elif mut == 14:
+                d["chunk_compression"] = None; name = "no-compression"
+            elif mut == 15:
+                d["chunk_descriptors"] = []; name = "no-descriptors-but-rebuild-order"
+            elif mut == 16:
+                d["chunk_descriptors"] = []; d["rebuild_order"] = []; d["source_total_size"] = 0; name = "empty-archive"
+            elif mut == 17:
+                d["chunk_descriptors"][0]["checksum"] = b""; name = "empty-checksum"
+            elif mut == 18:
+                d["source_total_size"] = 2 ** 64 - 1; name = "total-size-max"
+            elif mut == 19:
+                p["rolling_hash_window_size"] = 2 ** 20; p["max_chunk_size"] = 2 ** 21; p["min_chunk_size"] = 0; name = "big-window"
+            elif mut == 20:
+                p["chunking_algorithm"] = 1; p["rolling_hash_window_size"] = 3000; p["max_chunk_size"] = 100; p["min_chunk_size"] = 0; name = "rollsum-window-gt-max"
+            dbytes = pyfmt.encode_dictionary(d)
+            declared = None
+            if mut == 21:
+                declared = rng.choice([2 ** 40, 2 ** 62, 2 ** 64 - 1, 2 ** 64 - 72, 2 ** 64 - 80, len(dbytes) + 1, 0]); name = "declared-dict-size-%d" % declared
+            hdr = pyfmt.build_header(dbytes, magic=rng.choice([pyfmt.MAGIC, pyfmt.LEGACY_MAGIC]), declared_size=declared)
+            data = hdr + arch[pyfmt.parse_archive(arch)["header_size"]:]
+            apath = W.write(data, ".crafted.cba")
+            classes = []
+            for cmd in ("info", "clone", "clone-seed", "clone-inplace"):
+                outp = W.fresh(".out")
+                if cmd == "info":
+                    cls, rc, so, se = run_bita(["info", apath], timeout=20)
+                elif cmd == "clone":
+                    cls, rc, so, se = clone_cli(W, apath, outp, timeout=20)
+                elif cmd == "clone-seed":
+                    cls, rc, so, se = clone_cli(W, apath, outp, seeds=[seedfile], timeout=20)
+                else:
+                    with open(outp, "wb") as f:
+                        f.write(rng.randbytes(700) + bytes(900))
+                    cls, rc, so, se = clone_cli(W, apath, outp, seed_output=True, timeout=20)
+                classes.append(cls)
+                R.stat("runs")
+                if cls not in ("ok", "err"):
+                    R.fail("crafted-archive-%s" % cls, "bita %s on crafted archive %s :: %s" % (cmd, name, se.decode(errors="replace")[-160:].replace("\n", "|")))
+                if os.path.exists(outp):
+                    os.unlink(outp)
+            R.stat("mutation_" + name.split("-%d" % 0)[0][:40])
+            # the model's verdict on opening the same bytes
+            if declared is None or declared < 2 ** 20:
+                R.case("try-init %s" % hx(data), "__class__:" + ("ok" if classes[0] == "ok" else "invalid-or-reader-err"))
+            os.unlink(apath)
+        # servers: surplus bytes, empty bodies, wrong status, for header and chunk requests
+        arch, d = pyfmt.encode_archive(base_src, sizes, (1, 5, 16, 512, 16), 8, rng, freedoms=False)
+        for script in (["full", "full", ("extra", 9)], [("extra", 5)], ["full", ("extra", 1000)], ["empty"], ["full", "empty"],
+                       ["full", "full", "empty"], [("status", 500)], ["full", ("status", 404)], ["full", "full", ("status", 416)],
+                       ["full", "full", ("short", 3)], ["full", "full", "wrong"], ["refuse"], ["full", "refuse"]):
+            srv = httpd.Server(arch, script=list(script))
+            outp = W.fresh(".out")
+            cls, rc, so, se = clone_cli(W, srv.url(), outp, extra=["--http-retry-count", "1"], timeout=30)
+            srv.close()
+            R.stat("server_scripts")
+            if cls not in ("ok", "err"):
+                R.fail("server-behaviour-%s" % cls, "bita clone with server script %r :: %s" % (script, se.decode(errors="replace")[-160:].replace("\n", "|")))
+            elif cls == "ok" and read_file(outp) != base_src:
+                R.fail("server-behaviour-wrong-output", "script %r" % (script,))
+    finally:
+        W.close()
+    return R.as_dict()
